@@ -368,49 +368,64 @@ def check(ctx):
 
 
 def _temporaries(ctx, P):
-    """Dimension names manufactured from literals inside the transform wrappers (collide with a user's dimension)."""
+    """Dimension names manufactured inside the transform wrappers must not collide with a dimension of the
+    operands.  First the literal names the wrapper manufactures are collected; then the wrapper is interpreted
+    again on operands that already carry dimensions of exactly those names: a manufactured name that equals an
+    operand's dimension is a collision (the user's data cannot be called like that)."""
     deco = P.func("transform:input_handling")
     for raw_q in ("transform:linear_interpolation", "transform:conservative_interpolation"):
         raw = P.func(raw_q)
-        literal_dims = []
 
-        def m_apply_ufunc(ev, args, kw, node):
-            for group in (kw.get("input_core_dims") or []) + (kw.get("output_core_dims") or []):
-                for d in group:
-                    if isinstance(d, str):
-                        literal_dims.append((d, node))
-            ocd = kw.get("output_core_dims")
-            return make_da("APPLIED", [Sym("t")] + list(ocd[0] if ocd else []))
+        def run(extra_dims, on="both"):
+            made = []
 
-        def rename(ev, recv, args, kw, node):
-            m = dict(args[0]) if args and isinstance(args[0], dict) else {}
-            for k, v in m.items():
-                if isinstance(v, str):
-                    literal_dims.append((v, node))
-            return recv.with_eff(("rename", m), dims=tuple(m.get(d, d) for d in recv.attrs.get("dims", ())))
+            def m_apply_ufunc(ev, args, kw, node):
+                for group in (kw.get("input_core_dims") or []) + (kw.get("output_core_dims") or []):
+                    for d in group:
+                        if isinstance(d, str):
+                            made.append((d, node))
+                ocd = kw.get("output_core_dims")
+                return make_da("APPLIED", [Sym("t")] + list(ocd[0] if ocd else []))
 
-        mm = dict(da_method_models())
-        mm[("DataArray", "rename")] = rename
-        mm[("DataArray", "__len__")] = lambda ev, r, a, k, n: Lin.sym("n")
-        am = dict(da_attr_models())
-        am[("DataArray", "data")] = lambda ev, o, n: Obj("ndarray", o.name + ".data")
-        ev = Evaluator(P, models={"xarray.apply_ufunc": m_apply_ufunc}, method_models=mm, attr_models=am)
-        try:
+            def rename(ev, recv, args, kw, node):
+                m = dict(args[0]) if args and isinstance(args[0], dict) else {}
+                for k, v in m.items():
+                    if isinstance(v, str):
+                        made.append((v, node))
+                return recv.with_eff(("rename", m), dims=tuple(m.get(d, d) for d in recv.attrs.get("dims", ())))
+
+            mm = dict(da_method_models())
+            mm[("DataArray", "rename")] = rename
+            mm[("DataArray", "__len__")] = lambda ev, r, a, k, n: Lin.sym("n")
+            am = dict(da_attr_models())
+            am[("DataArray", "data")] = lambda ev, o, n: Obj("ndarray", o.name + ".data")
+            ev = Evaluator(P, models={"xarray.apply_ufunc": m_apply_ufunc}, method_models=mm, attr_models=am)
             wrapper = ev.call(FuncV(deco, deco.node, None, "transform"), [FuncV(raw, raw.node, None, "transform")], {}, None)
             ev.events, ev.decisions, ev._prefix, ev._pending = [], [], [], []
-            ev.call(wrapper, [make_da("phi", [Sym("t"), Sym("zc")], name=Sym("nm")), make_da("theta", [Sym("t"), Sym("zo")]), make_da("levels", [Sym("lev")]), Sym("zc"), Sym("zo"), Sym("lev")], {"suffix": "_s"}, None)
+            ev.call(wrapper, [make_da("phi", [Sym("t")] + (list(extra_dims) if on in ("phi", "both") else []) + [Sym("zc")], name=Sym("nm")),
+                              make_da("theta", [Sym("t")] + (list(extra_dims) if on in ("theta", "both") else []) + [Sym("zo")]),
+                              make_da("levels", [Sym("lev")]), Sym("zc"), Sym("zo"), Sym("lev")], {"suffix": "_s"}, None)
+            return made
+
+        try:
+            first = run([])
+            names = []
+            for n_, _node in first:
+                if n_ not in names:
+                    names.append(n_)
+            second = (run(names, "phi") + run(names, "theta")) if names else []
         except Unmodelled as e:
             ctx.unknown("R13.1", f"temporary names in {raw_q}", str(e))
             continue
-        seen = set()
-        for name, node in literal_dims:
-            if name in seen:
-                continue
-            seen.add(name)
+        collided = {}
+        for n_, node in second:
+            if n_ in names:
+                collided.setdefault(n_, node)
+        for name, node in collided.items():
             owner = _owner(P, node) or raw
-            ctx.report("R13.1", owner, f"literal temporary dimension name '{name}'", f"a dimension is renamed to / created under the fixed name '{name}': a user's dimension of the same name collides with it", node)
-        if not seen:
-            ctx.ok("R13.1", f"temporary names in {raw_q}", "no literal dimension names")
+            ctx.report("R13.1", owner, f"literal temporary dimension name '{name}'", f"a dimension is renamed to / created under the fixed name '{name}' even when an operand already has a dimension of that name: the user's dimension collides with it", node)
+        if not collided:
+            ctx.ok("R13.1", f"temporary names in {raw_q}", f"manufactured names {names} are replaced when an operand already uses them" if names else "no literal dimension names")
 
 
 def _text_level(ctx, P):
